@@ -2310,6 +2310,20 @@ def builtin_summary(I, cal, args, node, st):
                 else:
                     outs.extend(I.apply(args[1], [] if is_opt else [inner], node, s))
         return outs
+    if I.combinators and cal.startswith('core::bool::<impl bool>::') and name in ('then', 'then_some') and len(args) == 2 \
+            and (name == 'then_some' or args[1][0] in ('closure', 'fn')):
+        # std: `b.then(f)` returns Some(f()) if b is true and None otherwise (f is not called then); `b.then_some(v)` returns Some(v)
+        # if b is true and None otherwise (v was evaluated by the caller in both cases) - for every b, f, v
+        outs = []
+        for truth, s2 in I.decide(args[0], st):
+            if not truth:
+                outs.append(Out('val', ('ctor', 'None', ()), s2))
+            elif name == 'then_some':
+                outs.append(Out('val', ('ctor', 'Some', (args[1],)), s2))
+            else:
+                for o in I.apply(args[1], [], node, s2):
+                    outs.append(Out('val', ('ctor', 'Some', (o.val,)), o.st) if o.kind == 'val' else o)
+        return outs
     if I.combinators and name in ('checked_add',) and cal.startswith('core::num::<impl ') and len(args) == 2 and args[1][0] == 'lit':
         ity = cal[len('core::num::<impl '):].split('>')[0]
         rng = INT_RANGE.get(ity)
